@@ -253,7 +253,8 @@ class World(object):
     # ---- projection of the abstract state through the public API ----
     def project(self):
         sch = self.schema
-        pool = {c: self.ords(c, self.m.select_many(self.cname(c))) for c in sch['classes']}
+        known = {c: self.known(c) for c in sch['classes']}
+        pool = {c: self.ords(c, self.m.select_many(self.cname(c))) if known[c] else [] for c in sch['classes']}
         nav = []
         for a in sch['assocs']:
             f = [self.ords(a['src'], xtuml.navigate_many(t).nav(self.cname(a['src']), a['rel'], a['tphrase'])())
@@ -266,7 +267,7 @@ class World(object):
         ser = {c: [] for c in sch['classes']}
         for c in sch['classes']:
             rows = []
-            for x in itertools.islice(iter(self.m.select_many(c)), LIMIT):
+            for x in itertools.islice(iter(self.m.select_many(c)) if known[c] else [], LIMIT):
                 row = {}
                 for a in sch['attrs'][c]:
                     row[a['n']] = self.read(x, a['n'], a['t'])
@@ -282,11 +283,27 @@ class World(object):
             attr[c] = rows
         return {'pool': pool, 'nav': nav, 'attr': attr, 'spell': spl, 'ser': ser}
 
-    @staticmethod
-    def read(x, name, ty):
+    def known(self, c):
+        try:
+            self.m.find_metaclass(c)
+            return True
+        except xtuml.UnknownClassException:
+            return False
+
+    def read(self, x, name, ty):
         try:
             return encode(getattr(x, name), ty)
         except AttributeError:
+            # a class inferred from a positional INSERT names its attributes _0, _1, ...: read by position
+            mc = xtuml.get_metaclass(x)
+            names = list(mc.attribute_names)
+            if names and all(re.match(r'^_\d+$', n) for n in names):
+                decl = [a['n'] for a in self.schema['attrs'].get(mc.kind, [])]
+                if name in decl and decl.index(name) < len(names):
+                    try:
+                        return encode(getattr(x, names[decl.index(name)]), ty)
+                    except AttributeError:
+                        return 'absent'
             return 'absent'
 
     # ---- observations (MetaObs.tla Eval) ----
@@ -306,7 +323,17 @@ class World(object):
         out = []
         for j, op in enumerate(ops):
             if op['k'] == 'eq':
-                kv = {(spell(n, k + j) if self.opt.get('spell_attr') else n): decode(v) for n, v in op['kv']}
+                kv = {}
+                for i, (n, v) in enumerate(op['kv']):
+                    name = spell(n, k + j) if self.opt.get('spell_attr') else n
+                    if name in kv:
+                        # the same attribute named twice in one filter: under another spelling
+                        alts = [f(n) for f in SPELLERS] + [n.upper(), n.lower(), n.swapcase(), n.capitalize()]
+                        alts = [a for a in alts if a not in kv]
+                        if not alts:
+                            continue
+                        name = alts[(k + i) % len(alts)]
+                    kv[name] = decode(v)
                 out.append(xtuml.where_eq(**kv) if (k + j) % 2 else kv)
             elif op['k'] == 'lam':
                 fn = {'eq': operator.eq, 'ne': operator.ne, 'lt': operator.lt, 'le': operator.le,
